@@ -31,6 +31,11 @@ fn run_kind<B: 'static>(ctx: &Ctx, st: &mut Stats, k: Kind<B>, depth: usize) {
     let total: u64 = (0..=depth as u32).map(|d| nops.pow(d)).sum();
     let k = &k;
     st.merge(par_for(ctx, k.name, total, 64, |idx, st| {
+        if let Some((_, order)) = vcore::replay_target(ctx) {
+            if order != idx {
+                return;
+            }
+        }
         // decode idx -> (length, sequence)
         let mut rem = idx;
         let mut len = 0usize;
